@@ -207,7 +207,11 @@ func init() {
 		t := in.ctx.Var(name, smt.BV(64))
 		in.inputs = append(in.inputs, inputVar{Name: name, Kind: "int", Terms: []*smt.Term{t}, W: 64})
 		lo, hi := in.term(a[1]), in.term(a[2])
-		in.assume(fromTerm(in.ctx.And(in.ctx.Cmp(smt.OpSLe, lo, t), in.ctx.Cmp(smt.OpSLe, t, hi))))
+		if lo.Op == smt.OpBVConst && hi.Op == smt.OpBVConst && int64(lo.Val) <= int64(hi.Val) {
+			in.assumeFresh(in.ctx.And(in.ctx.Cmp(smt.OpSLe, lo, t), in.ctx.Cmp(smt.OpSLe, t, hi)))
+		} else {
+			in.assume(fromTerm(in.ctx.And(in.ctx.Cmp(smt.OpSLe, lo, t), in.ctx.Cmp(smt.OpSLe, t, hi))))
+		}
 		return SymInt{t}, true
 	}
 	intrinsics[vrtPkg+".Str"] = func(in *Interp, fr *frame, a []Value) (Value, bool) {
